@@ -436,6 +436,43 @@ def fact_explicit_fixed_width(repo):
         return None
 
 
+def fact_km_identity(repo):
+    """MementoFunctionHashRule.did_change compares the re-resolved function with the one the rule was made for"""
+    try:
+        tree = _parse(repo, "code_hash.py")
+        cls = _find_class(tree, "MementoFunctionHashRule")
+        fn = _find_func(cls, "did_change")
+        for r in ast.walk(fn):
+            if isinstance(r, ast.Return) and isinstance(r.value, ast.Compare) and len(r.value.ops) == 1 and isinstance(r.value.ops[0], (ast.IsNot, ast.NotEq)):
+                sides = [r.value.left, r.value.comparators[0]]
+                if any(isinstance(x, ast.Attribute) and x.attr == "memento_fn" for x in sides):
+                    return True
+        return False
+    except Exception:
+        return None
+
+
+def fact_ruleless_instance_recomputes(repo):
+    """_update_dependencies trusts the cached entry only when the instance has hash rules, and never calls entry.version"""
+    try:
+        tree = _parse(repo, "memento.py")
+        cls = _find_class(tree, "MementoFunction")
+        fn = _find_func(cls, "_update_dependencies")
+        called = any(isinstance(c, ast.Call) and isinstance(c.func, ast.Attribute) and c.func.attr == "version" and isinstance(c.func.value, ast.Name) and c.func.value.id == "entry"
+                     for c in ast.walk(fn))
+        guarded = False
+        for n in ast.walk(fn):
+            if isinstance(n, ast.If):
+                names = {x.attr for x in ast.walk(n.test) if isinstance(x, ast.Attribute)}
+                if "as_of_generation" in names and "_hash_rules" in names:
+                    guarded = True
+        if called:
+            return False
+        return True if guarded else None
+    except Exception:
+        return None
+
+
 FACTS = []
 
 
@@ -539,6 +576,16 @@ def _f18(repo):
 @fact("explicit_fixed_width", "option bool")
 def _f19(repo):
     return _opt_bool(fact_explicit_fixed_width(repo))
+
+
+@fact("km_identity", "option bool")
+def _f20(repo):
+    return _opt_bool(fact_km_identity(repo))
+
+
+@fact("ruleless_instance_recomputes", "option bool")
+def _f21(repo):
+    return _opt_bool(fact_ruleless_instance_recomputes(repo))
 
 
 def generate(repo):
